@@ -41,12 +41,44 @@ static void *__va_arg_fp(__va_elem *ap, int sz, int align) {
   return r;
 }
 
+// A struct of at most 16 bytes is passed in up to two registers, one per
+// eightbyte, if enough registers of each class are left. klass is 3 plus
+// the classes of the eightbytes (0 = general-purpose, 1 = SSE), 5 plus
+// twice the first plus the second for two eightbytes. The eightbytes are
+// gathered from the register save area into buf.
+static void *__va_arg_struct(__va_elem *ap, int klass, int sz, int align, char *buf) {
+  int fp1 = (klass == 4 || klass >= 7);
+  int fp2 = (klass == 6 || klass == 8);
+  int two = (klass >= 5);
+  int ngp = !fp1 + (two && !fp2);
+  int nfp = fp1 + (two && fp2);
+
+  if (ap->gp_offset + ngp * 8 > 48 || ap->fp_offset + nfp * 16 > 176)
+    return __va_arg_mem(ap, sz, align);
+
+  for (int i = 0; i <= two; i++) {
+    char *src;
+    if (i == 0 ? fp1 : fp2) {
+      src = ap->reg_save_area + ap->fp_offset;
+      ap->fp_offset += 16;
+    } else {
+      src = ap->reg_save_area + ap->gp_offset;
+      ap->gp_offset += 8;
+    }
+    for (int j = 0; j < 8 && i * 8 + j < sz; j++)
+      buf[i * 8 + j] = src[j];
+  }
+  return buf;
+}
+
 #define va_arg(ap, ty)                                                  \
   ({                                                                    \
     int klass = __builtin_reg_class(ty);                                \
+    _Alignas(16) char __va_buf[16];                                     \
     *(ty *)(klass == 0 ? __va_arg_gp(ap, sizeof(ty), _Alignof(ty)) :    \
             klass == 1 ? __va_arg_fp(ap, sizeof(ty), _Alignof(ty)) :    \
-            __va_arg_mem(ap, sizeof(ty), _Alignof(ty)));                \
+            klass == 2 ? __va_arg_mem(ap, sizeof(ty), _Alignof(ty)) :   \
+            __va_arg_struct(ap, klass, sizeof(ty), _Alignof(ty), __va_buf)); \
   })
 
 #define va_copy(dest, src) ((dest)[0] = (src)[0])
